@@ -27,6 +27,21 @@ type Value interface {
 	Test() bool
 }
 
+// Truthy reports whether a value counts as true in a condition: every value except nil and false
+// (false of any boolean type).
+func Truthy(value any) bool {
+	switch v := value.(type) {
+	case nil:
+		return false
+	case bool:
+		return v
+	}
+	if rv := reflect.ValueOf(value); rv.Kind() == reflect.Bool {
+		return rv.Bool()
+	}
+	return true
+}
+
 // ValueOf returns a Value that wraps its argument.
 // If the argument is already a Value, it returns this.
 func ValueOf(value any) Value { //nolint: gocyclo
@@ -104,7 +119,7 @@ func (v wrapperValue) IndexValue(Value) Value    { return nilValue }
 func (v wrapperValue) Contains(Value) bool       { return false }
 func (v wrapperValue) Interface() any            { return v.value }
 func (v wrapperValue) PropertyValue(Value) Value { return nilValue }
-func (v wrapperValue) Test() bool                { return v.value != nil && v.value != false }
+func (v wrapperValue) Test() bool                { return Truthy(v.value) }
 
 func (v wrapperValue) Int() int {
 	if n, ok := v.value.(int); ok {
